@@ -173,6 +173,24 @@ Timeout ==
   /\ mode' = "dead"
   /\ UNCHANGED <<sess, gamePos, go, lastDepth, lastNodes, lastTime, lastPV, lastScore, doneScore, nsearch, expect, ntr>>
 
+\* thousands of short searches on one engine, recorded compactly: for this position, every distinct answer that occurred
+Burst ==
+  /\ Ev.ev = "burst"
+  /\ LET pf == ParseFen(Ev.fen)
+         r == PlayLine(pf.pos, Ev.moves, 1)
+         U == UciSet(Legal(r.pos))
+         A == Ev.answers
+         wrong == {i \in 1 .. Len(A) : ~(IF U = {} THEN A[i][1] = "none" ELSE A[i][1] \in U)}
+         incons == {i \in 1 .. Len(A) : A[i][2] # "none" /\ A[i][1] # A[i][2]}
+     IN /\ Record(
+            << <<pf.ok /\ r.ok, "C07", "machinery: burst position is not legal", "">>,
+               <<wrong = {}, "C07", "in a long series of searches on one engine, some go was answered with a move that is not legal (or with the null move): " \o
+                  ToString({A[i] : i \in wrong}), ToString(U)>>,
+               <<incons = {}, "C16", "bestmove differs from the first move of the last reported pv: " \o ToString({A[i] : i \in incons}), "">> >>)
+        /\ gamePos' = r.pos
+        /\ ntr' = ntr \cup {l}
+  /\ UNCHANGED <<sess, mode, go, lastDepth, lastNodes, lastTime, lastPV, lastScore, doneScore, nsearch, expect>>
+
 \* the harness process died (non-unwinding panic / signal) while this session was running
 Panic ==
   /\ Ev.ev = "panic"
@@ -198,7 +216,7 @@ Next ==
   /\ l <= Len(Rec)
   /\ l' = l + 1
   /\ \/ Start \/ InPosition \/ InGo \/ InOther \/ OutMalformed \/ OutInfo \/ OutBestMove \/ OutOther
-     \/ ProbeFen \/ ProbeFresh \/ Timeout \/ End \/ Panic \/ Truncated
+     \/ ProbeFen \/ ProbeFresh \/ Timeout \/ End \/ Panic \/ Truncated \/ Burst
 
 Init ==
   /\ l = 1 /\ sess = 0 /\ mode = "idle" /\ gamePos = StartPos /\ go = NoGo
